@@ -54,6 +54,19 @@ func renderDepStyled(name string, ast DepAST, style string) string {
 	return name + ": " + renderDep(ast, fixedSchemes["S1-minimal"]) + "\n"
 }
 
+// renderSrcDscFull: as renderSrcDsc, but every build-dependency field is there (an empty one lists an
+// out-of-graph package), so that a variable decoded into again and again keeps nothing from before.
+func renderSrcDscFull(s SrcModel) string {
+	full := s
+	full.BD = append([]DepAST{}, s.BD...)
+	for i := range full.BD {
+		if len(full.BD[i].Rels) == 0 {
+			full.BD[i] = DepAST{Rels: []RelAST{{Alts: []AltAST{{Name: "outside-filler"}}}}}
+		}
+	}
+	return renderSrcDsc(full)
+}
+
 func renderSrcDsc(s SrcModel) string {
 	b := newDocBuilder()
 	b.scalar("Format", "3.0 (quilt)")
@@ -289,7 +302,7 @@ func hasCycle(n int, edges [][2]int) (cycle bool, onlySelf bool) {
 
 var specC19 = Register(&Spec[OrderCase]{
 	Prop: "C19", Name: "order",
-	Rule: "random build-dependency graphs over 1..12 sources (named src<i>, or composed of short syllables so that names are prefixes/suffixes/concatenations of each other) with 1..4 binaries each - uniquely named, except that in 1/5 of the cases one binary is also listed by a second source and in 1/6 two of the sources carry the same Source name (two versions side by side, with the same or different binaries); edges 'v build-depends on binary b of u' chosen acyclic (forward edges over a hidden order), with a planted cycle of length 2..4 (1/4 of cases) or a self-dependency; each edge goes to Build-Depends, -Arch or -Indep, one in five with a multiarch qualifier (:native, :any, :amd64 ...), as a plain relation or inside alternatives/arch lists so that the in-graph binary is, or deliberately is not, the first alternative admitted for the build architecture, with substvars and out-of-graph packages mixed in; 3/4 of edges go through a binary that is NOT the first of its source; every source is rendered as real .dsc text (Binary 'a, b, c' single-line or folded; dependency fields single-line, folded or wrap-and-sort), parsed with control.ParseDsc and handed over in a generated permutation. Oracle: model edge set E (C06 selection oracle; a build-dependency on a binary orders the source after EVERY source that builds it); E acyclic => no error, result is a permutation of the input and pos(u) < pos(v) for every edge; a cycle through >= 2 sources => error; only self-dependencies => either; three runs agree. Non-trivial: >= 1 edge through a non-first binary or decided by an alternative; distinct by case.",
+	Rule: "random build-dependency graphs over 1..12 sources (named src<i>, or composed of short syllables so that names are prefixes/suffixes/concatenations of each other) with 1..4 binaries each - uniquely named, except that in 1/5 of the cases one binary is also listed by a second source and in 1/6 two of the sources carry the same Source name (two versions side by side, with the same or different binaries); edges 'v build-depends on binary b of u' chosen acyclic (forward edges over a hidden order), with a planted cycle of length 2..4 (1/4 of cases) or a self-dependency; each edge goes to Build-Depends, -Arch or -Indep, one in five with a multiarch qualifier (:native, :any, :amd64 ...), as a plain relation or inside alternatives/arch lists so that the in-graph binary is, or deliberately is not, the first alternative admitted for the build architecture, with substvars and out-of-graph packages mixed in; 3/4 of edges go through a binary that is NOT the first of its source; every source is rendered as real .dsc text (Binary 'a, b, c' single-line or folded; dependency fields single-line, folded or wrap-and-sort), parsed with control.ParseDsc - or, in half of the cases, decoded one after the other into ONE DSC variable whose value is copied into the list each time - and handed over in a generated permutation. Oracle: model edge set E (C06 selection oracle; a build-dependency on a binary orders the source after EVERY source that builds it); E acyclic => no error, result is a permutation of the input and pos(u) < pos(v) for every edge; a cycle through >= 2 sources => error; only self-dependencies => either; three runs agree. Non-trivial: >= 1 edge through a non-first binary or decided by an alternative; distinct by case.",
 	Check: func(c OrderCase, r *Recorder) error {
 		n := len(c.Sources)
 		cm, _ := archModel(c.Arch)
@@ -350,11 +363,21 @@ var specC19 = Register(&Spec[OrderCase]{
 			r.Sample(map[string]interface{}{"sources": n, "edges": edges, "arch": c.Arch, "dsc0": renderSrcDsc(c.Sources[0])})
 		}
 		var dscs []control.DSC
+		var one control.DSC // the decoder-loop idiom: one variable filled again and again, copies collected
 		for _, idx := range c.Perm {
 			if idx < 0 || idx >= n {
 				return nil
 			}
 			text := renderSrcDsc(c.Sources[idx])
+			if len(c.Perm)%2 == 1 {
+				text = renderSrcDscFull(c.Sources[idx])
+				if err := control.Unmarshal(&one, strings.NewReader(text)); err != nil {
+					return errf("Unmarshal(&DSC) rejected %q: %v", text, err)
+				}
+				one.Filename = srvPath(c, idx)
+				dscs = append(dscs, one)
+				continue
+			}
 			d, err := control.ParseDsc(bufio.NewReader(strings.NewReader(text)), srvPath(c, idx))
 			if err != nil {
 				return errf("ParseDsc rejected %q: %v", text, err)
